@@ -3,6 +3,7 @@ import Pendulum.Proofs.ZoneOps
 import Pendulum.Proofs.Zone4
 import Pendulum.Proofs.CalRT
 import Pendulum.Proofs.NativeDT
+import Pendulum.Proofs.DTArithGen
 /-! # C11 — DateTime, Date and Time are drop-in replacements for the native classes
 
 The inherited accessors are literally the native ones; the theorems are about the **overrides**
@@ -450,5 +451,57 @@ example : (match pCombine epochOrd 5000 (.named zOverlap) false .naive with
      | .ok (ty, r) => decide (ty = .pDateTime ∧ r.w = 5000 ∧ r.instant = -2200 ∧ r.fold = false) | .error _ => false) = true ∧
     (match pCombine epochOrd 5000 (.named zOverlap) true .naive with
      | .ok (_, r) => decide (r.w = 5000 ∧ r.instant = 1400 ∧ r.fold = true) | .error _ => false) = true := by decide
+
+/-! ### the operator overrides themselves, regenerated from `src/pendulum/datetime.py` / `date.py` on every run
+(`tools/gen_dtarith.py` → `Gen/DTArith.lean`): which operand kinds are answered by pendulum, which are left to the native
+class (`NotImplemented` / `super().__add__`) -/
+open Pendulum.Gen.DTArith Pendulum.DTArithGen
+
+/-- **`DateTime.__add__/__radd__/__sub__/__rsub__`, from the source**, by kind of the other operand:
+    * not a timedelta on `+` → `NotImplemented` (as `datetime`), a timedelta → pendulum's own `_add_timedelta_`, except
+      when the calling frame is `astimezone` (CPython's `datetime.astimezone` uses `+` internally) → the native addition;
+    * `-`: a timedelta → `_subtract_timedelta`; a datetime → an Interval (never a bare `timedelta`); anything else →
+      `NotImplemented`; the reflected `-` only answers datetimes. -/
+theorem operator_dispatch_source_eq_model (I : Inst) (caller : String) (o no : Operand) :
+    dt_op_add I caller o =
+      (if !isDelta o.kind then .ok .notImplemented
+       else if caller = "astimezone" then .ok .super_add
+       else Except.map Res.value (dt_add_timedelta I o)) ∧
+    dt_op_radd I o = (if !isDelta o.kind then .ok .notImplemented else Except.map Res.value (dt_add_timedelta I o)) ∧
+    dt_op_sub I o no =
+      (if isDelta o.kind then Except.map Res.value (dt_subtract_timedelta I o no)
+       else if o.kind = .datetime ∨ o.kind = .pendulumDT then .ok (.interval (rebuilt o) .self false)
+       else .ok .notImplemented) ∧
+    dt_op_rsub I o =
+      (if o.kind = .datetime ∨ o.kind = .pendulumDT then .ok (.interval .self (rebuilt o) false)
+       else .ok .notImplemented) :=
+  ⟨(op_add_eq I caller o).1, (op_add_eq I caller o).2, op_sub_eq I o no, op_rsub_eq I o⟩
+
+/-- the length of the Interval `self - other` builds is pendulum's `pendulumSub` (the elapsed time), for two instances of
+    the class on different tzinfo objects — where the native `datetime.__sub__` (`Native.sub`) agrees -/
+theorem sub_source_eq_native (I : Inst) (sv ov : V) (o no : Operand) (hk : o.kind = .pendulumDT) :
+    (dt_op_sub I o no).toOption.map (resLen sv ov (.ok ov) false) = some (.ok (pendulumSub sv ov)) ∧
+    pendulumSub sv ov = Native.sub false sv ov := by
+  constructor
+  · rw [op_sub_eq]
+    simp [isDelta, rebuilt, hk, resLen, whoV, Except.toOption, Interval.new, Interval.delta, pendulumSub, V.instant]
+    omega
+  · rfl
+
+/-- **`Date.__add__/__sub__`, from the source**: a timedelta → `_add_timedelta` / `_subtract_timedelta`; a date or
+    datetime on the right of `-` → an Interval between Dates; anything else → `NotImplemented` -/
+theorem date_operator_dispatch_source_eq_model (D : DateInst) (o : Operand) :
+    date_op_add D o = (if !isDelta o.kind then .ok .notImplemented else Except.map Res.value (date_add_timedelta D o)) ∧
+    date_op_sub D o =
+      (if isDelta o.kind then Except.map Res.value (date_subtract_timedelta D o)
+       else if o.kind = .date ∨ o.kind = .datetime ∨ o.kind = .pendulumDT then
+         .ok (.interval (.date o.year o.month o.day) (.as_date .self) false)
+       else .ok .notImplemented) := date_op_eq D o
+
+/-- the way `__add__` reads its calling frame is pinned verbatim -/
+theorem add_caller_guard_pinned : caller_source = "traceback.extract_stack(limit=2)[0].name" := by decide
+
+example : (dt_op_add (instOf ⟨.naive, 0, false⟩) "f" ⟨.other, false, 0, 0, 0, 0, 0, 0, 0, 0, 0, 0, 0, 0, 0, 0, 0, 0, 0, 0, 0, 0, 0, 0, 0, 0, 0⟩).toOption
+    = some .notImplemented := by decide +kernel
 
 end Pendulum.Props.C11
